@@ -443,7 +443,7 @@ def automaton_case(draw, labels, max_n=8, dense=False):
     start = draw(st.integers(0, n - 1))
     return dict(n=n, start=start, labels=list(labels), edges=edges,
                 vn=draw(st.sampled_from(["int", "int", "str"])),
-                route=draw(st.sampled_from([0, 0, 1, 2, 3, 3, 4, 5, 5, 6, 6, 7, 8, 8])),
+                route=draw(st.sampled_from([0, 0, 1, 2, 3, 3, 4, 5, 5, 5, 5, 6, 6, 7, 8, 8])),
                 hide=draw(st.booleans()))
 
 
